@@ -37,10 +37,54 @@ fn lint(checker: &Checker<toml::value::Value>, src: &str) -> Option<Vec<String>>
 
 const MULTI_DEF: &str = "local function foo(a) end\nfoo = function(a, b) end\nfoo = function() end\nfunction foo(a, b, c) end\nlocal bar = foo\nfoo(1, 2, 3, 4, 5)\nfoo(1, 2, 3, 4, 5, 6)\nlocal t = { a = 1, a = 2, a = 3, b = 1, b = 2 }\nprint(t, bar, undefined_one, undefined_two, undefined_one)\n";
 
+const CUSTOM_LIB: &str = "globals:\n  oldfn:\n    args:\n      - type: any\n        required: false\n    deprecated:\n      message: old\n      replace:\n        - newfn(%1)\n  oldvalue:\n    property: read-only\n    deprecated:\n      message: gone\n  depr_param:\n    args:\n      - type: any\n        required: false\n      - type: any\n        required: false\n        deprecated:\n          message: no more\n  depr_first:\n    args:\n      - type: any\n        required: false\n        deprecated:\n          message: first is gone\n      - type: number\n        required: false\n  pure2:\n    must_use: true\n    args:\n      - type: any\n        required: false\n      - type: any\n        required: false\n  choose:\n    args:\n      - type:\n          - left\n          - right\n      - type: string\n        required: false\n  lib.oldfield:\n    property: read-only\n    deprecated:\n      message: gone\n  lib.newfield:\n    property: new-fields\n";
+
+/// (callee, nominal number of arguments)
+const FAMILY_CALLEES: &[(&str, usize)] = &[
+    ("oldfn", 1), ("depr_param", 2), ("depr_param", 1), ("depr_first", 2), ("pure2", 2), ("choose", 2), ("choose", 1),
+    ("math.floor", 1), ("table.insert", 2), ("table.insert", 3), ("string.format", 2), ("tostring", 1), ("table.getn", 1),
+    ("math.max", 2), ("select", 2), ("collectgarbage", 1),
+];
+const FAMILY_ARGS: &[&str] = &["nil", "1", "\"left\"", "\"up\"", "\"count\"", "x", "t", "{}", "x()", "...", "true", "(nil)", "\"%d\""];
+
 pub fn run(args: &Args, out: &mut Out) {
     let mut rng = Rng::new(args.seed ^ 0xC12);
-    let std51 = StandardLibrary::from_name("lua51").unwrap();
+    // lua51 plus entries that exercise every library-driven lint (deprecated functions / fields / parameters,
+    // must_use, constants, structs): state remembered across files would have to be keyed on all of it
+    let base51 = StandardLibrary::from_name("lua51").unwrap();
+    let mut std51: StandardLibrary = serde_yaml::from_str(CUSTOM_LIB).unwrap();
+    std51.extend(base51);
     let mut progs: Vec<(String, String)> = vec![("multi-definition".to_owned(), MULTI_DEF.to_owned())];
+    // families of small files that use the same library names with the same shapes but different contents
+    let nfam = if args.tier == "thorough" { 160 } else { 48 };
+    for k in 0..nfam {
+        let mut src = String::from("local x, t = 1, {}\n");
+        for _ in 0..1 + rng.below(3) {
+            let (callee, arity) = *rng.pick(FAMILY_CALLEES);
+            let argc = if rng.chance(1, 4) { rng.below(arity + 2) } else { arity };
+            let argv: Vec<&str> = (0..argc).map(|_| *rng.pick(FAMILY_ARGS)).collect();
+            match rng.below(3) {
+                0 => src.push_str(&format!("{callee}({})\n", argv.join(", "))),
+                1 => src.push_str(&format!("local _v = {callee}({})\n", argv.join(", "))),
+                _ => src.push_str(&format!("if {callee}({}) then end\n", argv.join(", "))),
+            }
+        }
+        if rng.chance(1, 3) {
+            src.push_str(*rng.pick(&["local _f = lib.oldfield\n", "local _g = oldvalue\n", "lib.newfield = 1\n", "local _h = lib.nope\n"]));
+        }
+        out.bump("family_program");
+        progs.push((format!("family-{k}"), src));
+    }
+    // systematic pairs: the same call with `nil` and with a value at each argument position, in separate files
+    for (ci, (callee, arity)) in FAMILY_CALLEES.iter().enumerate() {
+        for p in 0..*arity {
+            for (vi, v) in ["nil", "1", "\"left\"", "x"].iter().enumerate() {
+                let argv: Vec<&str> = (0..*arity).map(|k| if k == p { *v } else { *rng.pick(&["x", "1", "t"]) }).collect();
+                out.bump("pair_program");
+                progs.push((format!("pair-{ci}-{p}-{vi}"), format!("local x, t = 1, {{}}\nlocal _v = {callee}({})\n", argv.join(", "))));
+            }
+        }
+    }
     progs.extend(programs(args, out, &mut rng, "/verif/corpus/c12"));
     let progs: Vec<(String, String)> = progs.into_iter().filter(|(_, s)| full_moon::parse(s).is_ok()).collect();
     // reference: a fresh checker per program
